@@ -707,6 +707,34 @@ Definition wf_bin (b : list N) : bool := bytes_ok b && (N.of_nat (length b) <? t
 (* a string: additionally well-formed UTF-8 (read_string rejects anything else) *)
 Definition wf_str (s : list N) : bool := wf_bin s && utf8_valid s.
 
+(* well-formed UTF-8 consists of bytes, so the bytes_ok conjunct of wf_str is implied *)
+Lemma utf8_valid_fuel_bytes : forall fuel s, utf8_valid_fuel fuel s = true -> bytes_ok s = true.
+Proof.
+  unfold bytes_ok.
+  induction fuel as [|f IH]; intros s H; cbn [utf8_valid_fuel] in H.
+  - destruct s; [reflexivity|discriminate].
+  - destruct s as [|b0 r]; [reflexivity|].
+    unfold cont, in_range in H.
+    repeat match type of H with
+    | (if ?c then _ else _) = true => destruct c eqn:?
+    | match ?l with [] => _ | _ :: _ => _ end = true => destruct l; [discriminate H|]
+    end; try discriminate H;
+    repeat (apply andb_prop in H; let H' := fresh "H" in destruct H as [H H']);
+    cbn [forallb];
+    match goal with Hr : utf8_valid_fuel f ?l = true |- _ => rewrite (IH l Hr) end; unfold is_byte; lia.
+Qed.
+
+Theorem utf8_valid_bytes_ok : forall s, utf8_valid s = true -> bytes_ok s = true.
+Proof. intros s H. eapply utf8_valid_fuel_bytes. exact H. Qed.
+Print Assumptions utf8_valid_bytes_ok.
+
+Lemma wf_str_iff : forall s, wf_str s = true <-> N.of_nat (length s) < two32 /\ utf8_valid s = true.
+Proof.
+  intro s. unfold wf_str, wf_bin. split.
+  - intro H. apply andb_prop in H. destruct H as [H Hu]. apply andb_prop in H. split; [lia|exact Hu].
+  - intros [Hl Hu]. rewrite (utf8_valid_bytes_ok s Hu), Hu. cbn [andb]. rewrite andb_true_r. lia.
+Qed.
+
 Lemma wf_bin_len : forall b, wf_bin b = true -> N.of_nat (length b) < two32.
 Proof. intros b H. unfold wf_bin in H. apply andb_prop in H. lia. Qed.
 
